@@ -428,9 +428,7 @@ def r8_6(ctx, rc):
 
     def destroys(sn):
         return sn.kind in ('leaf', 'enter') and \
-            callee_name(sn) in destroyers and own_path(sn) and \
-            sn.frame.func.qualname in (F.qualname,
-                                       R.builder + '._prepare_file_creation')
+            callee_name(sn) in destroyers and own_path(sn)
     seen = sg.reach([sg.entry], avoid=lambda x: Q.is_done(x, claimq))
     found = [n for n in sg.nodes if n.id in seen and destroys(n)]
     total = [n for n in sg.nodes if destroys(n)]
